@@ -240,29 +240,34 @@ pub struct HugeCase {
     pub arch: u32,
     pub len: u32,
     pub sum_delta: u32,
+    /// the first word, when it is not the Multiboot2 header magic (another
+    /// structure handed to load() by mistake, e.g. a Multiboot 1 header whose
+    /// third word - its checksum - is then read as a length of gigabytes)
+    #[serde(default)]
+    pub magic: Option<u32>,
 }
 
-/// A lazily zero-filled 1 GiB mapping (never touched beyond its first page).
+/// A lazily zero-filled 4 GiB mapping (never touched beyond its first page).
 fn huge_mapping() -> *mut u8 {
     use std::sync::OnceLock;
     static P: OnceLock<usize> = OnceLock::new();
     *P.get_or_init(|| unsafe {
-        let p = libc::mmap(std::ptr::null_mut(), (1usize << 30) + 4096, libc::PROT_READ | libc::PROT_WRITE, libc::MAP_PRIVATE | libc::MAP_ANONYMOUS | libc::MAP_NORESERVE, -1, 0);
-        assert!(p != libc::MAP_FAILED, "cannot reserve 1 GiB of address space");
+        let p = libc::mmap(std::ptr::null_mut(), (1usize << 32) + 4096, libc::PROT_READ | libc::PROT_WRITE, libc::MAP_PRIVATE | libc::MAP_ANONYMOUS | libc::MAP_NORESERVE, -1, 0);
+        assert!(p != libc::MAP_FAILED, "cannot reserve 4 GiB of address space");
         p as usize
     }) as *mut u8
 }
 
 fn eval_huge(c: &HugeCase, obs: &mut Obs) -> Result<(), String> {
-    if c.len as usize > 1 << 30 || (c.arch != 0 && c.arch != 4) {
+    if (c.len as usize > 1 << 30 && c.magic.is_none()) || (c.arch != 0 && c.arch != 4) {
         return Err("malformed case".into());
     }
     let p = huge_mapping();
     let hdr = unsafe { core::slice::from_raw_parts_mut(p, 16) };
-    put32(hdr, 0, HDR_MAGIC);
+    put32(hdr, 0, c.magic.unwrap_or(HDR_MAGIC));
     put32(hdr, 4, c.arch);
     put32(hdr, 8, c.len);
-    put32(hdr, 12, model_checksum(HDR_MAGIC, c.arch, c.len).wrapping_add(c.sum_delta));
+    put32(hdr, 12, model_checksum(c.magic.unwrap_or(HDR_MAGIC), c.arch, c.len).wrapping_add(c.sum_delta));
     let want = predict_hdr_load(hdr);
     obs.class(format!("expect:{}", want.text()));
     obs.nontrivial(fnv(hdr));
@@ -297,9 +302,19 @@ fn enumerate_huge(_: &Ctx) -> Box<dyn Iterator<Item = HugeCase>> {
                 for sum_delta in [0u32, 1] {
                     let len = base.wrapping_add(d);
                     if len as usize <= 1 << 30 {
-                        v.push(HugeCase { arch, len, sum_delta });
+                        v.push(HugeCase { arch, len, sum_delta, magic: None });
                     }
                 }
+            }
+        }
+    }
+    // a genuine Multiboot 1 header (magic, flags, checksum with sum 0) and other
+    // first words, with the third word as it would be there
+    for arch in [0u32, 4] {
+        let mb1 = 0x1BAD_B002u32;
+        for (magic, len) in [(mb1, 0u32.wrapping_sub(mb1.wrapping_add(arch))), (mb1, 0u32.wrapping_sub(mb1.wrapping_add(arch)).wrapping_add(8)), (MBI_MAGIC, 24), (24, 0), (0x464C_457F, 0x0001_0102)] {
+            for sum_delta in [0u32, 1] {
+                v.push(HugeCase { arch, len, sum_delta, magic: Some(magic) });
             }
         }
     }
@@ -308,7 +323,7 @@ fn enumerate_huge(_: &Ctx) -> Box<dyn Iterator<Item = HugeCase>> {
 
 fn strategy_huge(_: &Ctx) -> BoxedStrategy<HugeCase> {
     (prop_oneof![Just(0u32), Just(4u32)], (0x0010_0000u32..=0x0800_0000).prop_map(|k| 8 * k), prop_oneof![4 => Just(0u32), 1 => any::<u32>()])
-        .prop_map(|(arch, len, sum_delta)| HugeCase { arch, len, sum_delta })
+        .prop_map(|(arch, len, sum_delta)| HugeCase { arch, len, sum_delta, magic: None })
         .boxed()
 }
 
